@@ -1453,7 +1453,11 @@ func (e *Engine) storeContribution(s *fstate, st *ssa.Store) AV {
 			}
 			if pv, ok := e.fieldPostcondition(call.Call.StaticCallee(), key, 0); ok {
 				if m := meetAV(r, pv); !m.IsBottom() {
+					// the checker can only take values away: it never makes the stored value "exact"
+					// (every value producible) if it was not, and it adds limits only where it tested
 					m.Taint, m.Raw, m.ZeroDef = r.Taint, r.Raw, r.ZeroDef && m.Contains(0)
+					m.Exact = r.Exact && pv.Exact
+					m.SanLo, m.SanHi = r.SanLo || (pv.SanLo && pv.Lo() != negInf), r.SanHi || (pv.SanHi && pv.Hi() != posInf)
 					r = m
 				}
 			}
